@@ -264,7 +264,7 @@ func genStep(r *vh.Rand, scenario bool, thorough bool, idx int, prevTok string, 
 	if strings.HasPrefix(body, "@") {
 		bf = body
 	}
-	return fmt.Sprintf("%s %s %d %d %s %s %s %s", beh, conn, status, bodyok, bf, vh.HexS(tok), pp, tmpl), tok, plain
+	return fmt.Sprintf("%s %s %d %d %s %s %s %s -", beh, conn, status, bodyok, bf, vh.HexS(tok), pp, tmpl), tok, plain
 }
 
 // gun options: mostly defaults, otherwise any combination of dump / trace / debug logging / answlog filter
@@ -299,7 +299,39 @@ func genEngH2(r *vh.Rand) string {
 		if strings.HasPrefix(body, "@") {
 			bf = body
 		}
-		line += fmt.Sprintf(" %s %s %d %d %s - - -", beh, conn, status, bodyok, bf)
+		line += fmt.Sprintf(" %s %s %d %d %s - - - -", beh, conn, status, bodyok, bf)
+	}
+	return line
+}
+
+// connect gun: tunnel endpoint misbehaviours (each case runs in a child process)
+func genEngConnect(r *vh.Rand) string {
+	n := r.Range(1, 6)
+	mode := r.PickInt([]int{0, 0, 0, 1})
+	line := fmt.Sprintf("eng connect 0 1 %d %s 1 %d", mode, genOpts(r), n)
+	down := false
+	for i := 0; i < n; i++ {
+		beh, conn, status, bodyok, body := "status", "ok", 200, 1, "ok"
+		switch k := r.Intn(12); {
+		case down:
+			beh, conn, status, bodyok, body = "tundown", "refused", 0, 0, ""
+		case k < 4:
+			status = r.PickInt([]int{200, 204, 404, 503})
+			if status == 204 {
+				body = ""
+			}
+		case k < 5:
+			beh, conn, status, bodyok, body = "close", "eof", 0, 0, ""
+		case k < 6:
+			beh, bodyok, body = "truncbody", 0, "hello"
+		case k < 10:
+			beh = r.Pick([]string{"tunclose", "tun403", "tunextra", "tunstall"})
+			conn, status, bodyok, body = "proto", 0, 0, ""
+		default:
+			beh, conn, status, bodyok, body = "tundown", "eof", 0, 0, ""
+			down = true
+		}
+		line += fmt.Sprintf(" %s %s %d %d %s - - - -", beh, conn, status, bodyok, vh.HexS(body))
 	}
 	return line
 }
@@ -307,6 +339,9 @@ func genEngH2(r *vh.Rand) string {
 func genEng(r *vh.Rand, thorough bool) string {
 	if r.Chance(1, 5) {
 		return genEngH2(r)
+	}
+	if r.Chance(1, 6) {
+		return genEngConnect(r)
 	}
 	gun := r.Pick([]string{"http", "scenario"})
 	n := r.Range(1, 7)
@@ -318,10 +353,31 @@ func genEng(r *vh.Rand, thorough bool) string {
 	refused := r.Chance(1, 12)
 	line := fmt.Sprintf("eng %s %s %d %s %s %d %d", gun, vh.B(r.Chance(2, 3)), inst, vh.B(refused), genOpts(r), iters, n)
 	prevTok, prevPlain := "", false
+	steps := make([][]string, n)
 	for i := 0; i < n; i++ {
 		var st string
 		st, prevTok, prevPlain = genStep(r, gun == "scenario", thorough, i, prevTok, prevPlain)
-		line += " " + st
+		steps[i] = strings.Split(st, " ")
+	}
+	if gun == "scenario" {
+		// a step whose preprocessor indexes the list ($.items) the previous step took from ITS response
+		for i := 1; i < n; i++ {
+			if !r.Chance(1, 4) || steps[i][7] != "-" || strings.HasPrefix(steps[i-1][7], "u") {
+				continue
+			}
+			ln := r.PickInt([]int{0, 0, 1, 3})
+			items := make([]string, ln)
+			for j := range items {
+				items[j] = fmt.Sprint(j + 1)
+			}
+			body := `{"items":[` + strings.Join(items, ",") + `]}`
+			prevPre := steps[i-1][8]
+			steps[i-1] = []string{"status", "ok", "200", "1", vh.HexS(body), "-", "J:1", steps[i-1][7], prevPre}
+			steps[i][8] = fmt.Sprintf("i:%s:%d", r.Pick([]string{"next", "rand", "last", "0", "5", "-1", "x"}), ln)
+		}
+	}
+	for _, st := range steps {
+		line += " " + strings.Join(st, " ")
 	}
 	return line
 }
